@@ -82,7 +82,9 @@ class Driver:
             [str(self.exe)], input=data.encode("ascii"), stdout=subprocess.PIPE,
             stderr=subprocess.PIPE, timeout=timeout,
         )
-        out = p.stdout.decode("utf-8").splitlines()
+        out = p.stdout.decode("utf-8").split("\n")  # NOT splitlines(): U+2028/U+0085 may travel raw inside strings
+        if out and out[-1] == "":
+            out.pop()
         self.calls += 1
         self.lines += len(reqs)
         if p.returncode != 0 or len(out) != len(reqs):
@@ -261,19 +263,41 @@ def grep_forbidden(prop):
 
 
 def regenerate(prop, mod, ctx):
-    """Rewrite Generated/*.lean for this property from /repo's working tree."""
+    """
+    Rewrite Generated/*.lean from /repo's working tree: this property's extractor AND the extractors of
+    every other property (their generated files may be imported by this property's model). A failing
+    extractor of another property only matters if this property imports one of its files.
+    """
     changed = []
-    extract = getattr(mod, "extract", None)
-    if extract is None:
-        return changed, None
-    try:
-        files = extract(ctx) or {}
-    except Exception as e:  # source no longer has the expected shape
-        return changed, "extraction failed: %s: %s" % (type(e).__name__, e)
-    for rel, content in files.items():
-        if write_if_changed(LEAN / rel, content):
-            changed.append(rel)
-    return changed, None
+    err = None
+    mods = [(prop, mod)]
+    for p in sorted((VERIF / "harness" / "corr").glob("C[0-9][0-9].py")):
+        if p.stem != prop:
+            try:
+                mods.append((p.stem, load_corr(p.stem)))
+            except Exception:
+                continue
+    mine = None
+    for name, m in mods:
+        extract = getattr(m, "extract", None)
+        if extract is None:
+            continue
+        try:
+            files = extract(ctx if name == prop else Ctx(name, ctx.tier, ctx.seed)) or {}
+        except Exception as e:  # source no longer has the expected shape
+            if name == prop:
+                err = "extraction failed: %s: %s" % (type(e).__name__, e)
+            else:
+                if mine is None:
+                    mine = {str(p.relative_to(LEAN)) for p in lean_files_of(prop).values()}
+                owned = set(getattr(m, "GENERATED_FILES", []))
+                if owned & mine:
+                    err = "extraction for %s failed (its generated files are imported here): %s: %s" % (name, type(e).__name__, e)
+            continue
+        for rel, content in files.items():
+            if write_if_changed(LEAN / rel, content):
+                changed.append(rel)
+    return changed, err
 
 
 def build(prop):
